@@ -720,9 +720,16 @@ func (z *Tokenizer) readMarkupDeclaration() TokenType {
 	if z.readDoctype() {
 		return DoctypeToken
 	}
+	if z.err != nil {
+		// The buffer limit (or a read error) was hit while matching "DOCTYPE".
+		return CommentToken
+	}
 	if z.allowCDATA && z.readCDATA() {
 		z.convertNUL = true
 		return TextToken
+	}
+	if z.err != nil {
+		return CommentToken
 	}
 	// It's a bogus comment.
 	z.readUntilCloseAngle()
